@@ -483,6 +483,9 @@ class Module(HasAccessibles):
                     if propname in {'value', 'default', 'constant'}:
                         # these properties have ValueType(), but should be checked for datatype
                         accessible.datatype(cfg[propname])
+                    if propname == 'datatype' and hasattr(propvalue, 'copy'):
+                        # the object might be used for other modules too
+                        propvalue = propvalue.copy()
                     accessible.setProperty(propname, propvalue)
             except KeyError:
                 self.errors.append(f"'{name}' has no property '{propname}'")
